@@ -1,7 +1,7 @@
 // C15 finding (soundness): an undeclared type name in argument position of a declared type inside
 // a declaration is accepted (and the constructor can even be matched on, as long as the field is
 // not used).
-// FIXED in /repo by <commit15> (Ty::check_template checks the whole declaration type): this file must be
+// FIXED in /repo by eb42971 (Ty::check_template checks the whole declaration type): this file must be
 // REJECTED now; it is kept as a regression input (an acceptance is a violation).
 data List[A] { Nil, Cons(x: A, xs: List[NoSuchType]) }
 def isEmpty(l: List[i64]): i64 { l.case[i64] { Nil => 1, Cons(x, xs) => 0 } }
